@@ -290,24 +290,61 @@ struct FnEmit
 
     // i64 values that really are pointers (clang lowers small struct copies and atomic<T*> to integer
     // loads/stores + inttoptr/ptrtoint): keep a pointer-typed twin so CBMC retains points-to information
+    // the instruction whose result (an i64, or field 0 of a cmpxchg result) carries a pointer: loads, atomic
+    // exchanges and compare-exchanges of pointer-sized integers that are converted back with inttoptr
+    static bool hasIntToPtrUser(Value* V)
+    {
+        for (User* U : V->users())
+        {
+            if (isa<IntToPtrInst>(U)) return true;
+            if (auto* P = dyn_cast<PHINode>(U))
+                for (User* U2 : P->users())
+                    if (isa<IntToPtrInst>(U2)) return true;
+        }
+        return false;
+    }
     bool isPtrLoad(Value* V)
     {
-        auto* L = dyn_cast<LoadInst>(V);
-        if (!L || !L->getType()->isIntegerTy(64)) return false;
-        for (User* U : L->users())
-            if (isa<IntToPtrInst>(U)) return true;
+        if (auto* L = dyn_cast<LoadInst>(V)) return L->getType()->isIntegerTy(64) && hasIntToPtrUser(L);
+        if (auto* R = dyn_cast<AtomicRMWInst>(V))
+            return R->getOperation() == AtomicRMWInst::Xchg && R->getType()->isIntegerTy(64) &&
+                (hasIntToPtrUser(R) || isa<PtrToIntOperator>(R->getValOperand()));
+        if (auto* X = dyn_cast<AtomicCmpXchgInst>(V))
+        {
+            if (!X->getCompareOperand()->getType()->isIntegerTy(64)) return false;
+            if (isa<PtrToIntOperator>(X->getNewValOperand()) || isa<PtrToIntOperator>(X->getCompareOperand())) return true;
+            for (User* U : X->users())
+                if (auto* E = dyn_cast<ExtractValueInst>(U))
+                    if (E->getIndices()[0] == 0 && hasIntToPtrUser(E)) return true;
+            return false;
+        }
         return false;
     }
     std::string pshadow(Value* V)
     {
         if (!V->getType()->isIntegerTy(64)) return "";
         if (auto* PI = dyn_cast<PtrToIntOperator>(V)) return "((u8*)" + val(PI->getPointerOperand()) + ")";
-        if (isPtrLoad(V))
+        if (auto* E = dyn_cast<ExtractValueInst>(V))
+            if (auto* X = dyn_cast<AtomicCmpXchgInst>(E->getAggregateOperand()))
+                if (E->getIndices()[0] == 0 && isPtrLoad(X))
+                {
+                    std::string n = names[X] + "_p";
+                    return (res && frameVals.count(X)) ? "fr->" + n : n;
+                }
+        if (auto* CI = dyn_cast<ConstantInt>(V))
+            if (CI->isZero()) return "((u8*)0)";
+        if (isa<Instruction>(V) && !isa<ExtractValueInst>(V) && isPtrLoad(V))
         {
             std::string n = names[V] + "_p";
             return (res && frameVals.count(V)) ? "fr->" + n : n;
         }
         return "";
+    }
+    // value as a pointer (u8*) for a pointer-carrying store: shadow if known, else integer cast
+    std::string asPtr(Value* V)
+    {
+        std::string p = pshadow(V);
+        return p.empty() ? "((u8*)(uintptr_t)" + val(V) + ")" : p;
     }
 
     void visiblePrologue()
@@ -687,7 +724,7 @@ struct FnEmit
                 visiblePrologue();
                 if (res) os << "  if (*" << val(S.getPointerOperand()) << " != " << val(S.getValueOperand()) << ") verif_changed = 1;\n";
             }
-            if (std::string ps = pshadow(S.getValueOperand()); !ps.empty())
+            if (std::string ps = isa<ConstantInt>(S.getValueOperand()) ? std::string() : pshadow(S.getValueOperand()); !ps.empty())
                 os << "  *(u8**)" << val(S.getPointerOperand()) << " = " << ps << ";\n";
             else
                 os << "  *" << val(S.getPointerOperand()) << " = " << val(S.getValueOperand()) << ";\n";
@@ -704,6 +741,14 @@ struct FnEmit
         {
             auto& R = cast<AtomicRMWInst>(I);
             visiblePrologue();
+            if (isPtrLoad(&I))
+            {
+                std::string pp = "*(u8**)" + val(R.getPointerOperand()), op = pshadow(&I);
+                os << "  " << op << " = " << pp << "; " << pp << " = " << asPtr(R.getValOperand()) << "; " << val(&I) << " = (u64)(uintptr_t)" << op << ";";
+                if (res) os << " if (" << pp << " != " << op << ") verif_changed = 1;";
+                os << "\n";
+                return;
+            }
             std::string p = "*" + val(R.getPointerOperand()), x = val(R.getValOperand()), o = val(&I);
             unsigned nb = R.getType()->isIntegerTy() ? R.getType()->getIntegerBitWidth() : 64;
             std::string nv;
@@ -731,6 +776,16 @@ struct FnEmit
         {
             auto& X = cast<AtomicCmpXchgInst>(I);
             visiblePrologue();
+            if (isPtrLoad(&I))
+            {
+                std::string pp = "*(u8**)" + val(X.getPointerOperand()), o = val(&I);
+                std::string op = (res && frameVals.count(&I)) ? "fr->" + names[&I] + "_p" : names[&I] + "_p";
+                os << "  " << op << " = " << pp << "; " << o << ".f0 = (u64)(uintptr_t)" << op << "; " << o << ".f1 = (u1)(" << op << " == " << asPtr(X.getCompareOperand())
+                   << "); if (" << o << ".f1) { " << pp << " = " << asPtr(X.getNewValOperand()) << ";";
+                if (res) os << " if (" << pp << " != " << op << ") verif_changed = 1;";
+                os << " }\n";
+                return;
+            }
             std::string p = "*" + val(X.getPointerOperand()), o = val(&I);
             os << "  " << o << ".f0 = " << p << "; " << o << ".f1 = (u1)(" << o << ".f0 == " << val(X.getCompareOperand()) << "); if (" << o
                << ".f1) { " << p << " = " << val(X.getNewValOperand()) << ";";
